@@ -569,4 +569,51 @@ theorem accepts_trace (vals : List Int) (progs : List (List Call)) (σ : List Na
   rw [lrun_fst] at h1
   exact ⟨st', th', h1, h2, h3.todo⟩
 
+/-! ### the head index counts the linearized pops -/
+
+theorem head_step {s : State} (hI : Inv s) (i : Nat) :
+    (step .addThenStore s i).1.head = s.head + (poppedVals (linOf s i).toList).length := by
+  unfold step linOf
+  cases hth : s.threads[i]? with
+  | none => rfl
+  | some th =>
+    have hloc := hI.locals th (List.mem_of_getElem? hth)
+    have hlen := hI.chain_len
+    dsimp only
+    cases hpc : th.pc with
+    | popCAS h n =>
+      simp only [hpc, PcOk] at hloc
+      obtain ⟨_, hlt, rfl⟩ := hloc
+      dsimp only
+      by_cases hc : s.head = h
+      · simp only [if_pos hc]
+        have hx : h + 1 < s.chain.length := by omega
+        rw [List.getElem?_eq_getElem hx]
+        simp [State.setPc, poppedVals, Lin.popped?, hc]
+      · simp only [if_neg hc]
+        unfold State.popFail
+        split <;> simp [State.setPc, State.fin, poppedVals]
+    | popLoadTail h =>
+      dsimp only
+      unfold State.popFail
+      (repeat' split) <;> simp [State.setPc, State.fin, poppedVals]
+    | pushStore v n => simp [State.fin, poppedVals, Lin.popped?]
+    | pushCAS v t => dsimp only; split <;> simp [State.setPc, poppedVals]
+    | pushLoadNext v t => dsimp only; split <;> simp [State.setPc, poppedVals]
+    | popRead n => dsimp only; split <;> simp [State.setPc, poppedVals]
+    | _ => simp [State.setPc, State.fin, poppedVals]
+
+/-- `head` = initial head + number of pop linearization events so far: the head pointer
+moves only at a successful `Pop`'s linearization point, by one node. -/
+theorem head_counts_pops {s : State} (hI : Inv s) (σ : List Nat) :
+    (run .addThenStore s σ).1.head = s.head + (poppedVals (lins s σ)).length := by
+  induction σ generalizing s with
+  | nil => simp [run, lins_nil, poppedVals]
+  | cons i σ ih =>
+    rw [lins_cons]
+    simp only [run]
+    rw [ih (inv_step hI i), head_step hI i]
+    simp only [poppedVals, List.filterMap_append, List.length_append]
+    omega
+
 end Golib.C11
